@@ -15,9 +15,14 @@ import RuxModel.Model.Dispatch
     serve r <id> <v1> <v2>                       GET the URL of route <id> with these variable values
     serve na <id> <v1> <v2>                      POST the same URL (405 when enabled, else 404)
     serve nf <k>                                 GET a URL nobody registered
+    serveh …                                     the same three forms; the harness enters through Router.HandleContext
+                                                 with a context it prepared itself (Init) instead of ServeHTTP.
+                                                 Both run handleHTTPRequest on an initialised context: same model step.
     nilpanic                                     (implementation only) panic(nil) with a hook; the model answers `unsupported`
   handler  H  = PH | - | act,act,…      act = em:<t> nx pn:<pv> st:<k>:<v> ae:<e> sp:<k>:<v> ab ss:<code> wr:<b>
-                                              wh:<code> rr:<id> rq:<id> gt:<k> dp     (<k> <v> <e> <b> hex)
+                                              wh:<code> rr:<id> rq:<id> gt:<k> dp kc  (<k> <v> <e> <b> hex)
+              `kc` (the handler keeps a `Context.Copy()`) is nothing the request can observe: the token is dropped
+              here, the harness checks the kept copy with an oracle
   panic value pv = s.<hex> | e.<hex> | i.<int> | rn | ri
   answer to serve:  <ret | panic:<pv> | unsupported> t=<trace> l=<writer log> ;; pr=0
 -/
@@ -133,13 +138,16 @@ def parseSAct (s : String) : Option SAct :=
 def parseAct (s : String) : Option Act :=
   if s = "nx" then some .next else (parseSAct s).map .s
 
+/-- the action tokens of a handler without the `kc` tokens (not a step of the model) -/
+def actToks (s : String) : List String := (s.splitOn ",").filter (· ≠ "kc")
+
 def parseSHandler (s : String) : Option (List SAct) :=
-  if s = "-" then some [] else (s.splitOn ",").mapM parseSAct
+  if s = "-" then some [] else (actToks s).mapM parseSAct
 
 def parseHandler (s : String) : Option Handler :=
   if s = "PH" then some .panicsHandler
   else if s = "-" then some (.acts [])
-  else ((s.splitOn ",").mapM parseAct).map .acts
+  else ((actToks s).mapM parseAct).map .acts
 
 /-! ### state -/
 
@@ -249,6 +257,7 @@ def dispatchStep' (s : DState) : List String → DState × String
 def dispatchStep (s : DState) : List String → DState × String
   | ["new", _caching, mna] => ({ started := true, mna := mna = "1" }, "ok")
   | ["nilpanic"] => (s, "unsupported")     -- panic(nil) is outside the model (known finding K-C09-panicnil)
+  | "serveh" :: rest => if s.started then dispatchStep' s ("serve" :: rest) else (s, "bad-op")
   | toks => if s.started then dispatchStep' s toks else (s, "bad-op")
 
 def dispatchEngine : Engine := { σ := DState, init := {}, step := dispatchStep }
